@@ -161,9 +161,7 @@ func (w *World) nfs(proc uint32, cred Cred, args []byte) (Reply, NfsRes) {
 
 // handleFor returns the client's handle for p, walking LOOKUPs from the nearest known ancestor when needed.
 func (w *World) inoOf(p string) uint64 {
-	w.fs.logOn = false
-	defer func() { w.fs.logOn = true }()
-	info, err := w.fs.Lstat(p)
+	info, err := w.fs.Peek(p)
 	if err != nil {
 		return 0
 	}
